@@ -13,7 +13,7 @@ LEVEL = "exploration"
 RULE = ("2..4 tasks share one inverter object, each reading its own register (count 2); the peer answers the n-th "
         "transmission per script over {drop, prompt, delayed-in-time, two fragments} and tags every payload with "
         "(register, n); scenarios = all scripts of depth 4 x start offsets x {udp, tcp} x keep-alive x retries for 2 "
-        "callers (exhaustive), random for 3-4 callers; distinct = distinct interleavings, i.e. sequences of "
+        "callers (exhaustive), random for 3-4 callers (mixed register counts, random arrival phase, TCP close() calls); schedules without any loss must serve every caller with one transmission; distinct = distinct interleavings, i.e. sequences of "
         "(task, event kind) over call/tx/rx/ret events")
 ASSUMPTIONS = [
     "proviso of the property: each transmission is answered at most once and before its own timeout",
